@@ -611,6 +611,8 @@ def run_case(seed, kind=None, profile=None, mode=None, nops=None):
     rng2 = random.Random(seed ^ 0x5EED)      # decisions added later draw from their own stream (older histories stay what they were)
     H.forgetful = rng2.random() < mode.get("forgetful", 0.3)
     H.payload = mode.get("payload") or rng2.choice((None,) * 10 + ("same_ids",))
+    if H.payload == "equal_values":
+        T.sh.mech_suffix = ":value-equal-items"      # input class of known finding KF-value-equal-items
     T.sh.forget_items = H.forgetful and not mode.get("illformed")
     for c in range(ncl):
         env.process(client(env, T, c, random.Random(rng.random()), nops, W, H, mode, mon, other))
